@@ -242,6 +242,21 @@ class AliasMod(object):
             return any(self._is_fancy(x) for x in idx.a)
         if idx.op in ("cmp", "bool", "list", "comp"):
             return True
+        if idx.op in ("upd", "loop", "loopvar"):
+            # a mask built up by stores: what it was created as decides (np.ones(n, dtype=bool), a comparison, ...)
+            o = idx
+            for _ in range(40):
+                if o.op == "upd":
+                    o = o.a[0]
+                elif o.op in ("loop", "loopvar"):
+                    o = o.a[2]
+                else:
+                    break
+            if o.op == "call" and tm.callee_name(o.a[0]) in ("np.ones", "np.zeros", "np.empty", "np.full", "np.ones_like", "np.zeros_like"):
+                dt = dict(o.a[2]).get("dtype")
+                if dt is not None and ((dt.op == "builtin" and dt.a[0] == "bool") or (dt.op == "ext" and dt.a[0] in ("np.bool_", "np.bool")) or (dt.op == "const" and dt.a[0] in ("bool",))):
+                    return True
+            return o is not idx and self._is_fancy(o)
         if idx.op == "call":
             n = tm.callee_name(idx.a[0])
             if n in ("np.where", "np.flatnonzero", "np.nonzero", "np.argsort", "np.logical_and", "np.logical_or", "np.logical_not", "np.ix_", "np.array", "np.arange", "astype", "np.any", "np.all", "np.isnan", "np.isfinite", "np.argwhere"):
